@@ -679,7 +679,7 @@ def check_reparse(text, definitions=None):
 
 def prepare_modules(workdir, sources):
     """write and syntax-check dependency modules so that their .mod files exist in ``workdir``"""
-    return diffexec.syntax_check(workdir, sources)
+    return diffexec.syntax_check(workdir, sources, timeout=300)
 
 
 def check_compile(workdir, name, text, incdirs=(), timeout=300, fflags=()):
